@@ -124,8 +124,10 @@ def run(ctx: Ctx):
     ctx.ob("C10.a", "process_logits:return=log_softmax(dim=-1)", ok_ls and len(rets) == 1, fi.loc,
            f"{len(rets)} return path(s), all log_softmax over the action axis: {ok_ls}", construct="process_logits:log_softmax")
     if L is None:
-        raise AnalysisError("process_logits: log_softmax operand not found")
-    pipe = pipeline(L)
+        # the function does not end in log_softmax: that IS the finding (reported above); the stages cannot be attributed
+        pipe = []
+    else:
+        pipe = pipeline(L)
     badskip = [p for p in pipe if p[0] == "bad-skip"]
     ctx.ob("C10.a", "process_logits:optional-stages-skip-to-their-input", not badskip, fi.loc,
            "every optional stage (tanh / mask / top-k / top-p) is applied to the previous stage's result and skipping it yields exactly that result" if not badskip else
